@@ -193,16 +193,73 @@ def isotropic_fast_path(ctx, obs, rule='ISO'):
     for n in ast.walk(f.node):
         for ch in ast.iter_child_nodes(n):
             parents[id(ch)] = n
+    import itertools
+
+    def atoms_of(t, acc):
+        """split a boolean expression into atoms; returns a function env -> bool"""
+        if isinstance(t, ast.BoolOp):
+            subs = [atoms_of(v, acc) for v in t.values]
+            if isinstance(t.op, ast.And):
+                return lambda env: all(fn(env) for fn in subs)
+            return lambda env: any(fn(env) for fn in subs)
+        if isinstance(t, ast.UnaryOp) and isinstance(t.op, ast.Not):
+            inner = atoms_of(t.operand, acc)
+            return lambda env: not inner(env)
+        key = ast.dump(t)
+        # atoms with a fixed value in the scenario
+        if isinstance(t, ast.Compare) and len(t.ops) == 1 and isinstance(t.left, ast.Name) and t.left.id == sparam \
+                and isinstance(t.comparators[0], ast.Constant) and t.comparators[0].value is None:
+            val = isinstance(t.ops[0], ast.IsNot)
+            return lambda env: val
+        if isinstance(t, ast.Compare) and len(t.ops) == 1 and isinstance(t.left, ast.Attribute) and t.left.attr == 'ndim' \
+                and isinstance(t.left.value, ast.Name) and t.left.value.id == sparam and isinstance(t.comparators[0], ast.Constant):
+            k, op = t.comparators[0].value, t.ops[0]
+
+            def ndim_atom(env, k=k, op=op):
+                nd = env['ndim']
+                return {ast.GtE: nd >= k, ast.Gt: nd > k, ast.Eq: nd == k, ast.NotEq: nd != k, ast.Lt: nd < k, ast.LtE: nd <= k}[type(op)]
+            return ndim_atom
+        kind = 'VT' if value_test(t) else 'U'
+        acc.setdefault(key, kind)
+        return lambda env: env[key]
     for c in calls:
         guards = [g for g in ast.walk(f.node) if isinstance(g, ast.If) and any(x is c for x in ast.walk(g))]
-        guarded = any(value_test(g.test) for g in guards)
         con = 'the centre-then-rescale shortcut is only taken for an isotropic pattern covariance'
-        if guarded:
-            obs.ok(rule, q, con, 'the dispatch looks at the values of sigma_k', where(prog, f, c))
+        if not guards:
+            obs.bad(rule, q, con, f'`{norm(c)[:60]}` is reached unconditionally', where(prog, f, c))
+            continue
+        g = guards[-1]
+        in_body = any(x is c for s_ in g.body for x in ast.walk(s_))
+        acc = {}
+        fn = atoms_of(g.test, acc)
+        bad_forms = []
+        for nd in (1, 2):
+            vts = [k for k, v in acc.items() if v == 'VT']
+            us = [k for k, v in acc.items() if v == 'U']
+            ok_form = False
+            for vt_vals in itertools.product([False, True], repeat=len(vts)):
+                all_slow = True
+                for u_vals in itertools.product([False, True], repeat=len(us)):
+                    env = {'ndim': nd}
+                    env.update(dict(zip(vts, vt_vals)))
+                    env.update(dict(zip(us, u_vals)))
+                    test_val = fn(env)
+                    fast = test_val if in_body else not test_val
+                    if fast:
+                        all_slow = False
+                        break
+                if all_slow:
+                    ok_form = True
+                    break
+            if not ok_form:
+                bad_forms.append('a variance vector' if nd == 1 else 'a covariance matrix')
+        if not bad_forms:
+            obs.ok(rule, q, con, 'for vector and matrix sigma_k alike a test on the values of sigma_k can force the exact route',
+                   where(prog, f, c))
         else:
-            obs.bad(rule, q, con, f'`{norm(c)[:60]}` is reached for every 1-D sigma_k (the dispatch only tests `is None` / `.ndim`): for '
-                    f'unequal variances the result differs from r1\' V^-1 r2 / sqrt(r1\' V^-1 r1 r2\' V^-1 r2) and from the result for '
-                    f'the same covariance given as a diagonal matrix', where(prog, f, c))
+            obs.bad(rule, q, con, f'`{norm(c)[:60]}` can be reached for {" and for ".join(bad_forms)} whatever its entries (dispatch '
+                    f'`{norm(g.test)[:90]}`): for an anisotropic covariance the result differs from r1\' V^-1 r2 / sqrt(r1\' V^-1 r1 r2\' V^-1 r2) '
+                    f'and from the result for the same covariance given in the other form', where(prog, f, c))
 
 
 def putmask_values(ctx, obs, rule='API', prefix=None):
